@@ -210,6 +210,7 @@ func runConcCore(t *testing.T, p *Plan, ns string) *Outcome {
 	var serials []c05Exec
 	var orders [][]int
 	var blame []string
+	var interleaved []bool // per op: another op ran a keyspace step between this op's first and last
 	var torn []string
 	var tornDetail string
 	var panicSig string
@@ -402,7 +403,7 @@ func runConcCore(t *testing.T, p *Plan, ns string) *Outcome {
 			return
 		}
 		// which ops were interleaved: another op ran a keyspace step between this op's first and last
-		interleaved := make([]bool, len(p.Ops))
+		interleaved = make([]bool, len(p.Ops))
 		for i, a := range ksSteps {
 			if len(a) < 2 {
 				continue
@@ -584,7 +585,39 @@ func runConcCore(t *testing.T, p *Plan, ns string) *Outcome {
 	case rel == "shared" && known != "":
 		o.Sig = "C05/nonatomic/" + known
 	case rel == "shared" && len(blame) > 0:
-		o.Sig = "C05/nonatomic/" + blame[0]
+		// No recorded finding among the interleaved commands. The dataset and the writers' replies are those of a
+		// serial order (checked above), so what cannot be explained is a READER's reply: name the interleaved read
+		// command whose reply differs from that order's, not simply the first interleaved command by name (which
+		// may be a writer whose own non-atomicity was repaired).
+		culprit := blame[0]
+		if p.Profile != "conn" {
+			now := nowMs()
+			bestDiff := -1
+			for _, ex := range serials {
+				if !mapsEqual(stripExpiredMap(ex.data, now), stripExpiredMap(conc.data, now)) {
+					continue
+				}
+				ok, cand, nd := true, "", 0
+				for i, op := range p.Ops {
+					name := strings.ToUpper(op.Args[0])
+					if ex.results[i] == conc.results[i] {
+						continue
+					}
+					if sp := specByName[name]; sp != nil && sp.Write {
+						ok = false
+						break
+					}
+					nd++
+					if i < len(interleaved) && interleaved[i] && (cand == "" || name < cand) {
+						cand = name
+					}
+				}
+				if ok && cand != "" && (bestDiff < 0 || nd < bestDiff) {
+					bestDiff, culprit = nd, cand
+				}
+			}
+		}
+		o.Sig = "C05/nonatomic/" + culprit
 	default:
 		o.Sig = "C05/nonserializable/" + rel + "/" + o.Class
 	}
